@@ -29,6 +29,14 @@ pub struct QResp {
     pub n: u64,
 }
 
+/// a response type whose values have no JSON encoding once `pairs` is not empty (map keys
+/// must be strings): a query returning it fails at the encoding step, after the handler ran
+#[derive(Serialize, Deserialize, Clone, Debug, PartialEq, JsonSchema)]
+pub struct Unenc {
+    pub label: String,
+    pub pairs: std::collections::BTreeMap<(u8, u8), u64>,
+}
+
 /// FNV-1a, used by echo queries to derive a value from their arguments
 pub fn hash64(s: &str) -> u64 {
     let mut h: u64 = 0xcbf29ce484222325;
